@@ -1,19 +1,19 @@
-\* C12 negative config on B (Variant is replaced by the check): TLC must reject it.
+\* C12 negative config on C: rendered handles remembered by OnceHandle.id (all zero-value handles collapse) -- TLC must reject it.
 CONSTANTS
-  Ctxs <- Ctx2
+  Ctxs <- Ctx1
   Modes = {"plain", "mw", "fresh"}
   Scripts = {"s1"}
   Classes = {"k1"}
-  BlockHandles = {"h1"}
-  ZeroHandles = {}
+  BlockHandles = {"h1", "h2"}
+  ZeroHandles = {"z1", "z2"}
   FixedHandles = {"g1"}
   RegSeq <- RegK1
   OnSeqs <- OnSeqsCore
   ClassExprs <- ClassExprsCore
   Repaired = {"KvCompName", "SliceKVRules"}
-  Variant = "packageState"
-  NonceCtxs = {"c1", "c2"}
-  MaxNonces = 1
+  Variant = "onceKeyedById"
+  NonceCtxs = {}
+  MaxNonces = 0
   MaxSteps = 99
   EmitEdges = FALSE
 INIT Init
